@@ -506,7 +506,7 @@ def _check(run, wd, mods, farm, t_start):
 
     # ---- the hash-seed children start first (they run in the background while the rest proceeds)
     t0 = time.time()
-    pool, hstats = c05_corpus.harvest(mods)
+    pool, hstats = c05.harvest_isolated(farm)
     rules = []
     for r in pool:
         try:
